@@ -963,14 +963,22 @@ def rule_scanner(ck, px):
     if sb is None:
         raise AnalysisError("_parse: two-character opener (reader.consume(2)) not found")
     sbv, sbn = sb
-    # opener second characters admitted by the scan loop
+    # opener second characters admitted by the scan loop (in _parse, or in a helper the reader is handed to)
     second = None
-    for t in cfg.stmt_nodes(lambda n: n.kind == "test"):
-        e = t.ast
-        if isinstance(e, ast.Compare) and len(e.ops) == 1 and isinstance(e.ops[0], (ast.In, ast.NotIn)) and isinstance(e.left, ast.Subscript) and q.dotted(e.left.value) == rd and not cfg.dominates(sbn, t):
-            coll = const_collection(e.comparators[0])
-            if coll is not None and all(isinstance(c, str) and len(c) == 1 for c in coll):
-                second = coll
+    scan_sites = [(fi, cfg, rd, True)]
+    for c_ in q.calls(fi.node):
+        if isinstance(c_.func, ast.Name) and c_.func.id in fi.module.funcs and c_.func.id != fi.name:
+            h_ = fi.module.funcs[c_.func.id]
+            for i_, a_ in enumerate(c_.args):
+                if q.dotted(a_) == rd and i_ < len(h_.params()):
+                    scan_sites.append((ck.use(h_), h_.cfg, h_.params()[i_], False))
+    for f_, cfg_, rd_, own in scan_sites:
+        for t in cfg_.stmt_nodes(lambda n: n.kind == "test"):
+            e = t.ast
+            if isinstance(e, ast.Compare) and len(e.ops) == 1 and isinstance(e.ops[0], (ast.In, ast.NotIn)) and isinstance(e.left, ast.Subscript) and q.dotted(e.left.value) == rd_ and (not own or not cfg_.dominates(sbn, t)):
+                coll = const_collection(e.comparators[0])
+                if coll is not None and all(isinstance(c, str) and len(c) == 1 for c in coll):
+                    second = coll
     if second is None:
         raise AnalysisError("_parse: the set of characters that may follow '{' was not found")
     openers = {"{" + c for c in second}
